@@ -1065,6 +1065,51 @@ fn normalise_chars(text: &str, fails: &dyn Fn(&str) -> bool) -> String {
     cur.iter().collect()
 }
 
+/// Canonical spelling of binary operators other than `..`: each operator becomes the first of `+`, `==`, `and` with which the
+/// failure persists (left to right), so that witnesses differing only in which arithmetic / comparison /
+/// logical operator they use coincide.
+fn normalise_operators(text: &str, fails: &dyn Fn(&str) -> bool) -> String {
+    let mut cur = text.to_string();
+    let mut from = 0usize; // operators starting before this offset are settled
+    loop {
+        let tree = parse(&cur, LuaLanguageLevel::Lua55);
+        let mut ops: Vec<(usize, usize)> = Vec::new();
+        for n in tree.get_red_root().descendants() {
+            if n.kind() != LuaKind::Syntax(LuaSyntaxKind::BinaryExpr) {
+                continue;
+            }
+            for ch in n.children_with_tokens() {
+                if let NodeOrToken::Token(t) = ch {
+                    let k: LuaTokenKind = t.kind().into();
+                    if !matches!(k, LuaTokenKind::TkWhitespace | LuaTokenKind::TkEndOfLine) {
+                        let r = t.text_range();
+                        ops.push((u32::from(r.start()) as usize, u32::from(r.end()) as usize));
+                    }
+                }
+            }
+        }
+        ops.sort();
+        let Some(&(s, e)) = ops.iter().find(|&&(s, _)| s >= from) else { return cur };
+        let mut next_from = e;
+        for cand in ["+", "==", "and"] {
+            // `..` has its own spacing knob and numeral hazards: it is a class of its own
+            if &cur[s..e] == cand || &cur[s..e] == ".." {
+                break;
+            }
+            let word = cand == "and";
+            let pad_l = if word && s > 0 && !cur[..s].ends_with([' ', '\n', ')']) { " " } else { "" };
+            let pad_r = if word && !cur[e..].starts_with([' ', '\n', '(', '"']) { " " } else { "" };
+            let t = format!("{}{pad_l}{cand}{pad_r}{}", &cur[..s], &cur[e..]);
+            if fails(&t) {
+                next_from = s + pad_l.len() + cand.len();
+                cur = t;
+                break;
+            }
+        }
+        from = next_from;
+    }
+}
+
 /// Part-level reduction (alphabet items / lines): greedy from the left — drop part i if the rest still
 /// fails — which is what `vcore::minimise_seq` does. For long part lists (std files) the same greedy
 /// walk is taken in blocks: at position i a block of m parts is dropped at once and m doubles while
@@ -1116,7 +1161,16 @@ pub fn minimise_text_cached(key: &str, t1: &str, fails: &dyn Fn(&str) -> bool) -
         memo.borrow_mut().insert(t.to_string(), r);
         r
     };
-    let min = normalise_chars(&minimise_chars(&substitute_subtrees(&minimise_chars(t1, &fails), &fails), &fails), &fails);
+    // the passes are repeated until none of them changes the text, so that a minimal witness is a fixpoint of
+    // the whole pipeline (minimising a witness again returns it)
+    let mut min = t1.to_string();
+    for _ in 0..6 {
+        let next = normalise_operators(&normalise_chars(&minimise_chars(&substitute_subtrees(&minimise_chars(&min, &fails), &fails), &fails), &fails), &fails);
+        if next == min {
+            break;
+        }
+        min = next;
+    }
     MIN_CACHE.lock().unwrap().get_or_insert_with(HashMap::new).insert(key.to_string(), min.clone());
     min
 }
